@@ -249,10 +249,11 @@ type Gen struct {
 	decls map[string]string // const -> sort
 	order []string
 	funcs map[string]string // declared function symbols -> full declaration
+	axioms map[string]string // function symbol -> quantified axiom (trusted pure contract)
 }
 
 func newGen(w *World) *Gen {
-	return &Gen{w: w, decls: map[string]string{}, funcs: map[string]string{}}
+	return &Gen{w: w, decls: map[string]string{}, funcs: map[string]string{}, axioms: map[string]string{}}
 }
 
 func (g *Gen) fresh(prefix, sort string) string {
